@@ -68,6 +68,8 @@ def plan(tier, seed):
 		sch = [(5, 3, 3, 'u2', 'u2'), (4, 2, 4, 'u8', 'u4'), (3, 4, 1, 'u4', 'i2')]
 	else:
 		sch = [(6, 3, 4, 'u2', 'u2'), (5, 4, 3, 'u2', 'u2'), (5, 3, 4, 'u8', 'u4'), (4, 4, 4, 'u4', 'i2'), (6, 2, 6, 'i8', 'u8')]
+	for container in ('array', 'hdf5', 'siglist'):
+		tasks.append(('t_big', dict(container=container, tier=tier)))
 	for N, T, P, dq, dr in sch:
 		tasks.append(('t_sched_child', dict(N=N, T=T, P=P, dq=dq, dr=dr)))
 	return tasks
@@ -235,6 +237,67 @@ def t_configs(tier, shard, nshards):
 	return sh
 
 
+def t_big(container, tier):
+	"""Collections larger than the default query chunk size (1000) and than any plausible block size: 1500 (thorough 5000) references, chunk sizes
+	none / 1000 / 999 / 64 / 7, thread counts 1 / 4 / 16, index selections (all, reversed, every 3rd with repeats), all three bulk functions;
+	every cell against the two-signature distance."""
+	import random
+	from gambit.metric import jaccarddist, jaccarddist_array, jaccarddist_matrix, jaccarddist_pairwise
+	from gambit._cython.threads import omp_set_num_threads
+	from gambit.sigs.base import SignatureArray, SignatureList, dump_signatures, load_signatures
+	sh = Shard()
+	n = 1500 if tier == 'quick' else 5000
+	rnd = random.Random(99)
+	ks = fixtures.kspec(8, 'AT')
+	sets = [sorted(rnd.sample(range(2000), rnd.choice([0, 1, 3, 8, 20]))) for _ in range(n)]
+	arrs = [np.array(x, dtype='u2') for x in sets]
+	queries = [np.array(sorted(rnd.sample(range(2000), 12)), dtype='u2'), np.array([], dtype='u2'), arrs[17]]
+	with fixtures.workdir('c05b') as d:
+		if container == 'array':
+			refs = SignatureArray(arrs, ks, dtype=np.dtype('u2'))
+		elif container == 'siglist':
+			refs = SignatureList(arrs, ks, dtype=np.dtype('u2'))
+		else:
+			p = os.path.join(d, 'big.gs')
+			dump_signatures(p, SignatureArray(arrs, ks, dtype=np.dtype('u2')))
+			refs = load_signatures(p)
+		exp_full = np.array([[f32bits(jaccarddist(q, a)) for a in arrs] for q in queries], dtype=np.uint32)
+		selections = {'all': None, 'reversed': list(range(n - 1, -1, -1)), 'every-3rd-with-repeats': [i for i in range(0, n, 3) for _ in (0, 1)][:1201]}
+		for threads in (1, 4, 16):
+			omp_set_num_threads(threads)
+			got = jaccarddist_array(queries[0], refs).view(np.uint32)
+			sh.evals += 1
+			if not np.array_equal(got, exp_full[0]):
+				bad = int(np.flatnonzero(got != exp_full[0])[0])
+				sh.violation('big-array-cell-mismatch', dict(big=True, container=container, func='array', threads=threads, chunk=None, selection='all'), int(exp_full[0][bad]), dict(cell=bad, got=int(got[bad])))
+			for chunk in (None, 1000, 999, 64, 7):
+				for sname, sel in selections.items():
+					if chunk == 7 and (threads != 4 or sname != 'all'):
+						continue
+					res = jaccarddist_matrix(queries, refs, ref_indices=sel, chunksize=chunk).view(np.uint32)
+					exp = exp_full if sel is None else exp_full[:, sel]
+					sh.evals += 1
+					if res.shape != exp.shape or not np.array_equal(res, exp):
+						bad = np.argwhere(res != exp)[0].tolist() if res.shape == exp.shape else None
+						sh.violation('big-matrix-cell-mismatch', dict(big=True, container=container, func='matrix', threads=threads, chunk=chunk, selection=sname), None, dict(first_bad_cell=bad))
+					else:
+						sh.nontrivial += 1
+						sh.count('big_bulk_calls')
+		omp_set_num_threads(4)
+		m = 300
+		idx = list(range(0, m * 2, 2))
+		pw = jaccarddist_pairwise(refs, indices=idx).view(np.uint32)
+		sh.evals += 1
+		exp = np.array([[f32bits(jaccarddist(arrs[a], arrs[b])) if a != b else 0 for b in idx] for a in idx], dtype=np.uint32)
+		if not np.array_equal(pw, exp):
+			sh.violation('big-pairwise-cell-mismatch', dict(big=True, container=container, func='pairwise', threads=4, chunk=None, selection='even-300'), None, dict(first_bad_cell=np.argwhere(pw != exp)[0].tolist()))
+		if container == 'hdf5':
+			refs.close()
+	omp_set_num_threads(2)
+	sh.sample(dict(family='big', container=container, n=n))
+	return sh
+
+
 # ------------------------------------------------------------------------------------------------ (b)
 
 def shim_path():
@@ -348,6 +411,7 @@ def finalize(agg, tier):
 	agg.require('chunk_x_index_x_nondefault_container', 10)
 	agg.require('index_selection_with_repeats', 50)
 	agg.require('strided_output_views', 50)
+	agg.require('big_bulk_calls', 50)
 	agg.require('schedules_with_work_on_several_threads', 100)
 	agg.require('distinct_iteration_to_thread_assignments', 20)
 	agg.coverage_extra['schedule_explorations'] = [e['sched'] for e in agg.extra if 'sched' in e]
@@ -356,6 +420,8 @@ def finalize(agg, tier):
 def replay(case, kind=None):
 	global DEFAULT
 	sh = Shard()
+	if case.get('big'):
+		return [v for v in t_big(case['container'], 'quick').violations if v['case'] == case][:1]
 	if 'schedule' in case or 'schedule_history' in case:
 		r = child.run('mc.props.c05', 'replay_sched', dict(case=case), env={'LD_PRELOAD': shim_path(), 'OMP_NUM_THREADS': str(case['T'])})
 		return r
